@@ -1,6 +1,7 @@
 package main
 
 import (
+	"go/types"
 	"fmt"
 	"go/token"
 	"strings"
@@ -242,6 +243,51 @@ func ruleMetadataHops(c *Ctx, rule string) {
 		}
 	}
 	c.check(rule, "readLoop:first-response-headers", okHd, "Header() metadata is ToMetadata(first envelope's Header.Headers), handed to the ready latch", p.pos(rl.Pos()))
+	// a latch release that reports success carries the metadata decoded from the envelope just read: releasing
+	// with (nil error, no metadata) — e.g. because the final-status check ran first — silently loses headers that
+	// travel on the same envelope as the status
+	onReady := p.latchReleaseFn()
+	nrel := 0
+	allInstrs(rl, func(i ssa.Instruction) {
+		cl, ok := i.(*ssa.Call)
+		if !ok || cl.Call.IsInvoke() {
+			return
+		}
+		isRel := false
+		for _, g := range p.calleesOfValue(cl.Call.Value, e) {
+			if g == onReady {
+				isRel = true
+			}
+		}
+		if !isRel {
+			return
+		}
+		var errArg, mdArg ssa.Value
+		for _, a := range cl.Call.Args {
+			switch {
+			case types.Identical(a.Type(), types.Universe.Lookup("error").Type()):
+				errArg = a
+			case strings.HasSuffix(typeStr(a.Type()), "metadata.MD"):
+				mdArg = a
+			}
+		}
+		if errArg == nil || mdArg == nil {
+			c.undecided(rule, "readLoop:latch-release-args", "cannot tell the error and metadata arguments of the latch release", p.ipos(i))
+			return
+		}
+		nrel++
+		if !isNilConst(errArg) {
+			return
+		}
+		okMd := false
+		if ex, ok := mdArg.(*ssa.Extract); ok {
+			if tc, ok := ex.Tuple.(*ssa.Call); ok && tc.Call.StaticCallee() != nil && p.fnKey(tc.Call.StaticCallee()) == "int.ToMetadata" && p.lpath(tc.Call.Args[0]) == p.lpath(rpc)+".Header.Headers" {
+				okMd = true
+			}
+		}
+		c.check(rule, "readLoop:successful-release-carries-decoded-headers", okMd, "a latch release with a nil error hands over ToMetadata(envelope.Header.Headers) of the envelope just read", p.ipos(i))
+	})
+	c.floor(rule, "latch releases in the stream read loop", nrel, 3)
 	hdrF := p.MustFn("client.clientStream.Header")
 	for _, r := range returnsOf(hdrF) {
 		v := retVals(r)[0]
